@@ -569,6 +569,11 @@ class ExprMixin:
     return VDict(d)
 
   def ev_GeneratorExp(self, node, env):
+    if len(node.generators) == 1 and len(node.generators[0].ifs) == 1 and not self.spec_mode:
+      src = self.unopt(self.ev(node.generators[0].iter, env))
+      if isinstance(src, VIter):
+        return self.filtered_gen(src, node.generators[0], node.elt, env)
+      return VList(self._comp(node, env, src))
     if len(node.generators) == 1 and not node.generators[0].ifs and not self.spec_mode:
       src = self.ev(node.generators[0].iter, env)
       src = self.unopt(src)
@@ -576,6 +581,47 @@ class ExprMixin:
         return VGen(src, node.generators[0].target, node.elt, env)
       return VList(self._comp(node, env, src))
     return VList(self._comp(node, env))
+
+  def filtered_gen(self, src, gen, elt, env):
+    """(elt for target in it if cond) over a fault-free ghost iterator, summarised (A2: comprehension semantics): the
+    result delivers elt(x) for exactly the elements x with a true cond, in order; the ghost counting function
+    kept_upto(j) = number of kept elements before position j relates the positions."""
+    if src.wrap_fn is not None:
+      raise Unsupported('filtered generator expression over a wrapped iterator')
+    j = z3.Int(self.path.fresh_name('j'))
+    e2 = {'__parent__': env}
+    self.assign_target(gen.target, self.wrap(src.src.kind, z3.Select(src.src.arr, j)), e2)
+    self.spec_mode += 1
+    try:
+      keep = self.truth(self.ev(gen.ifs[0], e2))
+      val = self.unwrap('obj', self.ev(elt, e2))
+    finally:
+      self.spec_mode -= 1
+    cnt = z3.Function(self.path.fresh_name('kept_upto'), z3.IntSort(), z3.IntSort())
+    p0, n = src.pos, src.src.n
+    if src.fails is not None:        # the source may fail: everything up to the first failing position is filtered,
+      f = self.fresh_int('first_failure')      # then the generator dies with that error
+      self.assume(z3.And(p0 <= f, f <= n))
+      self.assume(z3.ForAll([j], z3.Implies(z3.And(p0 <= j, j < f), z3.Not(z3.Select(src.fails, j)))))
+      self.assume(z3.Implies(f < n, z3.Select(src.fails, f)))
+    else:
+      f = n
+    self.assume(cnt(p0) == 0)
+    self.assume(z3.ForAll([j], z3.Implies(z3.And(p0 <= j, j < f), cnt(j + 1) == cnt(j) + z3.If(keep, 1, 0))))
+    self.assume(z3.ForAll([j], z3.Implies(z3.And(p0 <= j, j <= f), z3.And(0 <= cnt(j), cnt(j) <= j - p0))))
+    out = z3.Array(self.path.fresh_name('filtered.arr'), z3.IntSort(), Obj)
+    self.assume(z3.ForAll([j], z3.Implies(z3.And(p0 <= j, j < f, keep), z3.Select(out, cnt(j)) == val)))
+    fails = None
+    total = cnt(f)
+    if src.fails is not None:
+      i = z3.Int(self.path.fresh_name('i'))
+      fails = z3.Lambda([i], z3.And(f < n, i == cnt(f)))
+      total = cnt(f) + z3.If(f < n, 1, 0)
+    r = VIter(VSeq(out, total, 'obj'), z3.IntVal(0), fails, False, None, tag='filtered')
+    r.err = src.err
+    r.kept = (cnt, keep, j, p0, f)
+    src.pos = z3.If(f < n, f + 1, n) if src.fails is not None else n
+    return r
 
   def _comp(self, node, env, src=None):
     if len(node.generators) != 1:
